@@ -6,7 +6,7 @@ import compilecheck as cc
 import pipeline as pl
 
 ID = "C06"
-LEAN_MODULES = ["QtyModel.Props.C06"]
+LEAN_MODULES = ["QtyModel.Props.C06", "QtyModel.Props.C06General"]
 HARNESS_GROUPS = ()
 RULE = ("all ordered pairs of the 14 catalogue quantity types and the dimensionless amount x operators + - * / == < "
         "(1350 programs) in both back-ends, and the astronomical crate's types (150 programs, f64): rustc's verdict per "
@@ -88,6 +88,57 @@ def extra(tier, seed):
                         fails.append(dict(backend=be, group=group, program=src.splitlines()[line_no - 1], what=what,
                                           rustc=(err_lines[line_no].as_dict() if rejected else "accepted"),
                                           model=model, spec=spec, oracle="FAIL:" + what))
+        # ---- randomly generated derivation graphs (definitions expanded by the real macro)
+        import defgen
+        from world import Rng
+        rng = Rng(seed * 6700417 + 6)
+        for rnd in range(1 if tier == "quick" else 6):
+            g = defgen.Gen(rng)
+            kinds = ["ref", "ref", "ref", "noref", "single", "derived", "ref", "derived", "derived"]
+            defs = [g.wellformed(k) for k in kinds[: (7 if tier == "quick" else 9)]]
+            items_path = os.path.join(root, f"graph{rnd}.txt")
+            with open(items_path, "w", encoding="utf-8") as f:
+                f.write("\n".join(d.item_text() for d in defs) + "\n")
+            for be in (("f64",) if tier == "quick" else ("f64", "dec")):
+                rc, out = pl.sh([pl.DRIVER, be, "typingf", items_path])
+                rows = [tuple(l.split(" ")) for l in out.splitlines() if l.strip()]
+                mism = [r for r in rows if r[3] != r[4]]
+                if mism:
+                    broken.append(pl.Broken("thm.C06.typechecks_eq_spec", f"random graph: model and specification differ: {mism[:5]}"))
+                lines = ["#![allow(unused, non_snake_case, non_camel_case_types, clippy::all)]",
+                         "pub mod defs {", "    use quantities::prelude::*;"]
+                for d in defs:
+                    lines += ["    " + l for l in d.rust_lines()[0]]
+                lines.append("}")
+
+                def tp(n):
+                    return "quantities::AmountT" if n == "AmountT" else ("bool" if n == "bool" else f"defs::{n}")
+                index = {}
+                for k, (op, l, r, model, spec) in enumerate(rows):
+                    if spec != "-":
+                        lines.append(f"pub fn f{k}(a: {tp(l)}, b: {tp(r)}) -> {tp(spec)} {{ a {op} b }}")
+                    else:
+                        lines.append(f"pub fn f{k}(a: {tp(l)}, b: {tp(r)}) {{ let _ = a {op} b; }}")
+                    index[len(lines)] = k
+                src = "\n".join(lines) + "\n"
+                d = cc.make_crate(root, f"c06_graph{rnd}_{be}", src, ["fpdec"] if be == "dec" else [])
+                ok, diags, tail = cc.cargo_check(d, f"c06-{be}")
+                err_lines = {dg.line: dg for dg in diags if dg.file and dg.file.endswith("src/lib.rs")}
+                for line_no, k in index.items():
+                    op, l, r, model, spec = rows[k]
+                    cov["programs"] += 1
+                    rejected = line_no in err_lines
+                    if (spec == "-") == rejected:
+                        cov["rejected_as_predicted" if rejected else "accepted_as_predicted"] += 1
+                    else:
+                        what = (f"generated types: `{l} {op} {r}` type-checks although not dimensionally meaningful" if spec == "-"
+                                else f"generated types: `{l} {op} {r}` does not type-check with result {spec}")
+                        fails.append(dict(backend=be, program=lines[line_no - 1], what=what, spec=spec, model=model,
+                                          definitions="\n".join(x for dd in defs for x in dd.rust_lines()[0])[:4000],
+                                          oracle="FAIL:" + what))
+                stray = [dg for ln, dg in err_lines.items() if ln not in index]
+                if stray:
+                    broken.append(pl.Broken("corr.C06.graph", f"errors outside the operator programs: {[x.as_dict() for x in stray[:3]]}"))
     cov["evaluations"] = cov["programs"]
     cov["distinct_nontrivial"] = cov["programs"]
     cov["samples"] = ["pub fn f(a: Length, b: Length) -> Area { a * b }", "pub fn f(a: Mass, b: Length) { let _ = a + b; }"]
